@@ -87,6 +87,20 @@ def f_string_lz_empty():
     return s == "", repr(s)
 
 
+@finding("C01/offset-ignored/127513.peukertExponent", "C01")
+def f_offset():
+    from nmea2000 import pgns
+    # batteryConfigurationStatus: peukertExponent is byte 6, resolution 0.002, Offset 1, range 1..1.504 (raw 0..252)
+    p = (1) | (2 << 8) | (100 << 48)
+    try:
+        m = pgns.decode_pgn_127513(p)
+    except Exception as e:
+        return False, f"in-range payload rejected: {type(e).__name__}: {e}"
+    v = [f for f in m.fields if f.id == "peukertExponent"][0].value
+    out = int.from_bytes(pgns.encode_pgn_127513(m), "little")
+    return abs(v - 1.2) < 1e-9 and out == p, f"peukertExponent raw 100 -> {v} (database: 1 + 100*0.002 = 1.2); re-encodes to raw {(out >> 48) & 0xFF}"
+
+
 # ---------------------------------------------------------------- C02
 @finding("C02/time-tick-loss/126992.time", "C02")
 def f_tick_loss():
